@@ -119,6 +119,12 @@ def gen_plan(rng, tier, index=0):
             two = [h for h in heap if h["cat"] == cat and h["layout"] != "frame_of"][:2]
             for h, m in zip(two, (3, 1)):
                 h["fill"] = h["fill"] - h["fill"] % 4 + m
+        # ... and hold images and strength vectors both in native and in non-native byte order, write-protected (data mapped
+        # read-only from FITS files next to data produced in memory): dispatch on the argument's type must not confuse the two
+        for cat in ("img2d", "vec_pos"):
+            two = [h for h in heap if h["cat"] == cat and h["layout"] != "frame_of"][:2]
+            for h, dt in zip(two, ("float64", ">f8")):
+                h.update({"dtype": dt, "ro": True, "layout": "C"})
     by_cat = {}
     for i, h in enumerate(heap):
         by_cat.setdefault(h["cat"], []).append(i)
@@ -150,7 +156,7 @@ def gen_plan(rng, tier, index=0):
     if index % 2 == 0:
         # a sweeping caller (every second program): one function after the other - chosen by the run index, so that every
         # registered function is swept within ~2 x len(ENTRIES) runs - is called with the same scalars, defaults left out, on
-        # every array it accepts for its first array parameter (two image sizes, several dtypes and layouts). State that the
+        # every array it accepts for its first two array parameters (two image sizes, several dtypes and layouts, both byte orders). State that the
         # first call pins (a mutated default argument, a cache keyed on too little) shows when the order stage reverses it.
         r = rng.sub("sweep")
         prog = []
@@ -159,14 +165,14 @@ def gen_plan(rng, tier, index=0):
             if not e["arrays"]:
                 continue
             st0 = gen_call(r, heap, z, by_cat, e)
-            p0, cats0 = e["arrays"][0]
-            cands = [i for c in cats0 if c for i in by_cat.get(c, [])]
-            for i in cands[:5]:
-                st = dict(st0)
-                st["a"] = dict(st0["a"])
-                st["a"][p0] = i
-                st.update({"omit": True, "poison": False, "scribble": False})
-                prog.append(st)
+            for p0, cats0 in e["arrays"][:2]:
+                cands = [i for c in cats0 if c for i in by_cat.get(c, [])]
+                for i in cands[:5]:
+                    st = dict(st0)
+                    st["a"] = dict(st0["a"])
+                    st["a"][p0] = i
+                    st.update({"omit": True, "poison": False, "scribble": False})
+                    prog.append(st)
         if prog:
             progs.append(prog)
             n_callers += 1
